@@ -3,6 +3,6 @@ namespace Kestrel
 open Generated
 
 /-- decrypt.rs::pass_decrypt — magic, salt, key — nothing is written here  (properties: C02 C03 C04 C13) -/
-theorem gen_flow_decrypt_rs_pass_decrypt : flow_decrypt_rs_pass_decrypt = ["err:Other", "read_exact", "magic_check", "err:Other", "read_exact", "scrypt"] := rfl
+theorem gen_flow_decrypt_rs_pass_decrypt : flow_decrypt_rs_pass_decrypt = ["err:Other", "read_exact", "magic_check", "err:Other", "read_exact", "scrypt", "call:decrypt_chunks"] := rfl
 
 end Kestrel
